@@ -114,3 +114,14 @@ Theorem C07_source_tables :
   src_location_headers = location_headers.
 Proof. split; [exact tie_is_unsafe_method|split; [exact tie_is_non_error_status|exact tie_location_headers]]. Qed.
 Print Assumptions C07_source_tables.
+
+(* the effect trees this property is stated about — which store / origin / clock operations happen, in which order, under
+   which conditions, and what every path returns — are those /verif/translate derives from the Go source on this run
+   (Generated/SrcEffects.v; equal up to the extensional equality of continuations, ProgEq.peq, which [run] respects) *)
+From HC.Generated Require Import SrcEffects.
+From HC.Proofs Require Import ProgEq TieEffects.
+Theorem C07_source_effects :
+  (forall q k, peq (src_handle_unrecognized_method q k) (handle_unrecognized_method q k)) /\
+  (forall ctx q rep, peq (src_handle_validation_response ctx q rep) (handle_validation_response ctx q rep)).
+Proof. repeat split; [exact tie_handle_unrecognized_method|exact tie_handle_validation_response]. Qed.
+Print Assumptions C07_source_effects.
